@@ -68,6 +68,19 @@ def run_phase(ctx, res, prop, n_quick=36, n_thorough=400):
         tid = len(traces) + 1
         traces.append({"id": "M%d" % tid, "v1": v1, "ev": ev})
         info["M%d" % tid] = inf
+    # long lifetimes: hundreds of requests of every survivable kind on one manager process (what accumulates over a
+    # lifetime - descriptors, counters, remembered state, repairs - must not change how the next request is served)
+    for plat in ("ledger", "sgx", "tcp"):
+        n = ctx.pick(300, 2500)
+        mix = ["client"] * 6 + ["linkfault", "timeout", "inrange", "reconnfail"]
+        causes = [rng.choice(mix) for _ in range(n)]
+        ev, inf = procmgr.run_lifetime(ctx.scratch, "%s_long_%s" % (prop, plat), True, causes, False, rng,
+                                       start_env=(dict(procmgr.GOOD_ENV), "f"), plat=plat)
+        inf["causes"] = inf["causes"][:40] + ["... %d in all" % n]
+        inf["labels"] = inf["labels"][:40]
+        tid = len(traces) + 1
+        traces.append({"id": "M%d" % tid, "v1": False, "ev": ev})
+        info["M%d" % tid] = inf
     # every cause under every configuration of the manager (logging to a file, -D, standard output closed)
     plans_all = [json.loads(u) for u in uniq if json.loads(u)["should"]]
     for cause in sorted({c for p in plans_all for c in p["plan"]}):
